@@ -76,6 +76,28 @@ func c10Case(seed uint64, part, idx int) *core.Case {
 		doc := fmt.Sprintf("{ t0 { ...A ...B } } fragment A on T%dq { f%d } fragment B on T%d { f%dq ... on Tq%d { f0 } }", k1, k1, k2, k2, k1)
 		return core.NewCase("pair", "schema", b.String(), "doc", doc)
 	}
+	if idx%50 == 24 {
+		// many errors of one kind in sibling positions of one node (variable definitions with bad defaults and unknown
+		// directives, arguments nobody declares): their order is part of the result (after seeded change C10-wave10-A: the
+		// definitions of an operation walked in map order)
+		var b, sel strings.Builder
+		n := 4 + r.Intn(6)
+		b.WriteString("query Q(")
+		for k := 0; k < n; k++ {
+			nm := r.Pick("v", "w", "a", "zz", "M") + fmt.Sprint(k*7%n)
+			fmt.Fprintf(&b, "$%s: %s = %s @%s ", nm, r.Pick("Int", "Int!", "[Int]", "Missing", "Boolean"), r.Pick(`"s"`, "1.5", "{a: 1}", "RED", "[true]"), r.Pick("nope", "skip(if: 1)", "include", "deprecated"))
+			fmt.Fprintf(&sel, " k%d: a(x: $%s, y%d: 1)", k, nm, k)
+		}
+		b.WriteString(") {" + sel.String() + " }")
+		return core.NewCase("pair", "schema", "type Query { a(x: Int): Int }", "doc", b.String())
+	}
+	if idx%1250 == 23 {
+		// a valid document that is merely wide: the same field a thousand and more times over. It has no errors, as the
+		// same document with the field written twice has none - whatever time the comparison of the fields with each other
+		// takes (after seeded change C10-wave10-C: a rule that gives up, with an error, when a deadline on the clock passes)
+		n := 1500 + r.Intn(500)
+		return core.NewCase("pair", "schema", "type Query { a(x: Int): Int b: Query }", "doc", "{ b {"+strings.Repeat(" a", n)+" } }", "narrow", "{ b { a a } }")
+	}
 	mg := tsys.Merge(items)
 	g := dgen.New(r, mg, &dgen.Opts{MaxDepth: 1 + r.Intn(3), MaxOps: 1 + r.Intn(3), Introspect: idx%3 == 0})
 	doc := g.Doc()
@@ -257,6 +279,19 @@ func c10Check(x *core.Ctx, c *core.Case) {
 	}
 	if strings.Contains(first, "Did you mean") {
 		x.Count("with_suggestions")
+	}
+	if nsrc := c.Get("narrow"); nsrc != "" {
+		k = 1
+		x.Count("wide_documents")
+		nd, perr := parser.ParseQuery(&ast.Source{Name: "doc.graphql", Input: nsrc})
+		if perr != nil {
+			x.HarnessBug("narrow document does not parse")
+			return
+		}
+		if narrow := serializeErrs(validator.Validate(schema, nd)); narrow != first {
+			x.Violate("wide-document-differs-from-narrow:"+errListDiffKind(narrow, first), first, "the errors of the same selection written twice: "+narrow)
+			return
+		}
 	}
 	for i := 0; i < k; i++ {
 		s := schema
